@@ -65,20 +65,20 @@ type Exec struct {
 
 	rx map[*Value]*rxProg // compiled regexps by *regexp.Regexp pointer
 
-	MapOrderMax int // enumerate all iteration orders up to this map size
+	MapOrderMax    int  // enumerate all iteration orders up to this map size
 	MapOrderSticky bool // one (chosen) iteration order per map object until it is mutated
 	SchedChoice    bool // explore interleavings at synchronisation operations
 	MaxSchedPoints int
 	schedPoints    int
 	inYield        bool
-	fatalEv      *fatalInfo
-	callStack    []*ssa.Function
-	initRunning  map[*ssa.Package]bool
-	lastInstr    ssa.Instruction
-	fatalEnd     interface{}
-	baseMaxSteps int
-	accessLog   *AccessLog
-	depthHigh   int
+	fatalEv        *fatalInfo
+	callStack      []*ssa.Function
+	initRunning    map[*ssa.Package]bool
+	lastInstr      ssa.Instruction
+	fatalEnd       interface{}
+	baseMaxSteps   int
+	accessLog      *AccessLog
+	depthHigh      int
 }
 
 func (ex *Exec) abort(format string, args ...interface{}) {
